@@ -220,6 +220,58 @@ pub fn run(kind: &str, args: &[i64]) -> String {
                 Err(e) => canon::tzerr(&mut o, &e),
             }
         }
+        "tzref_many" => {
+            // a borrowed zone with more local time types than a TZif file can index (> 256)
+            let ntypes = 257 + (a(args, 0).unsigned_abs() % 200) as usize;
+            let types: Vec<LocalTimeType> = (0..ntypes).map(|i| LocalTimeType::with_ut_offset((i as i32 % 97) * 900 - 43200).unwrap()).collect();
+            let nt = 2 + (a(args, 1).unsigned_abs() % 6) as usize;
+            let mut tr = Vec::new();
+            let mut t = a(args, 2) % 4_000_000_000;
+            for k in 0..nt {
+                let idx = if k % 2 == 0 { ntypes - 1 - (a(args, 3 + k).unsigned_abs() as usize % 100) } else { a(args, 3 + k).unsigned_abs() as usize % ntypes };
+                tr.push(Transition::new(t, idx));
+                t = t.saturating_add(1 + a(args, 3 + k).unsigned_abs() as i64 % 100_000);
+            }
+            match TimeZoneRef::new(&tr, &types, &[], &None) {
+                Ok(z) => {
+                    for x in &tr {
+                        for dt in [-1i64, 0, 1] {
+                            let tt = x.unix_leap_time().saturating_add(dt);
+                            match z.find_local_time_type(tt) {
+                                Ok(l) => canon::ltt(&mut o, l),
+                                Err(e) => canon::tzerr(&mut o, &e),
+                            }
+                            if let Ok(d) = DateTime::from_timespec(tt, 0, z) {
+                                match kfound(d.year(), d.month(), d.month_day(), d.hour(), d.minute(), d.second(), z) {
+                                    Ok(k) => {
+                                        let _ = write!(o, "k={k}");
+                                    }
+                                    Err(e) => canon::tzerr(&mut o, &e),
+                                }
+                            }
+                        }
+                    }
+                }
+                Err(e) => canon::tzerr(&mut o, &e),
+            }
+        }
+        "project_x" => {
+            // projection between two fixed zones with arbitrary (also extreme) offsets
+            let l1 = LocalTimeType::with_ut_offset(a(args, 2) as i32).unwrap_or(LocalTimeType::utc());
+            let l2 = [LocalTimeType::with_ut_offset(a(args, 3) as i32).unwrap_or(LocalTimeType::utc())];
+            match DateTime::from_timespec_and_local(a(args, 0), a(args, 1).unsigned_abs() as u32 % 1_000_000_000, l1) {
+                Ok(d) => {
+                    canon::dt(&mut o, &d);
+                    if let Ok(z2) = TimeZoneRef::new(&[], &l2, &[], &None) {
+                        match d.project(z2) {
+                            Ok(p) => canon::dt(&mut o, &p),
+                            Err(e) => canon::tzerr(&mut o, &e),
+                        }
+                    }
+                }
+                Err(e) => canon::tzerr(&mut o, &e),
+            }
+        }
         #[cfg(feature = "tz-alloc")]
         "tzstr" => {
             let bytes: Vec<u8> = args.iter().map(|x| *x as u8).collect();
